@@ -154,6 +154,8 @@ structure ClassDef where
   /-- `getattr(cls, '_ignore_none', <absent>)`: `none` = no class of the MRO sets it -/
   ignoreNoneAttr : Option Bool := none
   immutable : Bool := false
+  /-- which of `_serialization_mapper` / `_deserialization_mapper` the class's own `__dict__` holds -/
+  ownMappers : List String := []
 deriving Repr, Inhabited
 
 namespace ClassDef
@@ -278,8 +280,14 @@ def dedupStr : List String → List String
 
 /-! ### quantities computed by `StructMeta.__new__` (total functions of world and source) -/
 
+/-- a literal `None` is no default at all: `_default is None` is typedpy's test for "has no
+    default" (`default=None`, and `a: F = None` once it has passed validation) -/
+def litNone : Option Dflt → Option Dflt
+  | some (.lit .none) => none
+  | d => d
+
 def entryMember : SrcEntry → Option Member
-  | .field d kw eq => some (.field d (if eq.isSome && !optTruthy kw then eq else kw))
+  | .field d kw eq => some (.field d (litNone (if eq.isSome && !optTruthy kw then eq else kw)))
   | .obj m => some m
   | .attr _ => none
 
@@ -333,39 +341,11 @@ def ownOf (w : World) (n : String) : List (String × Member) :=
 def allFieldsOf (w : World) (src : ClassSrc) : List (String × Member) :=
   mergeAll [] (((mroTail w src).reverse.map (ownOf w)) ++ [ownMembers src.entries])
 
-/-- the own-dict entry `n` of the first class of a linearisation that has one -/
-def firstOwnMember (w : World) (n : String) : List String → Option Member
-  | [] => none
-  | k :: ks =>
-    match lookup n (ownOf w k).reverse with
-    | some m => some m
-    | none => firstOwnMember w n ks
-
-/-- `_field_by_name` the new class *inherits* while its metaclass is still running (its own is
-    set last): that of the first Structure class in the MRO tail -/
-def inheritedFieldMap (w : World) : List String → List (String × Member)
-  | [] => []
-  | k :: ks =>
-    match w.find k with
-    | some c => if c.isStruct then c.allFields else inheritedFieldMap w ks
-    | none => inheritedFieldMap w ks
-
-/-- `getattr(clsobj, n)` inside `StructMeta.__new__`: the own entry; else the first own-dict
-    entry along the MRO — a Constant is returned as it is, but a Field is a descriptor whose
-    `__get__(None, clsobj)` answers from the inherited `_field_by_name` (with several bases that
-    can be another base's view of the name) -/
-def resolveAttr (w : World) (src : ClassSrc) (n : String) : Option Member :=
-  match lookup n (ownMembers src.entries).reverse with
-  | some m => some m
-  | none =>
-    match firstOwnMember w n (mroTail w src) with
-    | some (.const v) => some (.const v)
-    | some (.field _ _) => lookup n (inheritedFieldMap w (mroTail w src))
-    | none => none
-
-/-- the members as `getattr` sees them, for every name of `_field_by_name` -/
-def resolvedFields (w : World) (src : ClassSrc) : List (String × Member) :=
-  (allFieldsOf w src).map fun p => (p.1, (resolveAttr w src p.1).getD p.2)
+/-- the members by name as `StructMeta.__new__` reads them when it collects the Constants: the
+    own-dict entries merged along the MRO, i.e. `_field_by_name` itself.  (Until /repo's repair of
+    `names-mismatch:constant-shadowed-in-diamond` this was `getattr(clsobj, name)`, which for a Field
+    answered from the *inherited* `_field_by_name` — in a diamond another branch's view.) -/
+def resolvedFields (w : World) (src : ClassSrc) : List (String × Member) := allFieldsOf w src
 
 def constantsOf (fs : List (String × Member)) : List (String × PyVal) :=
   fs.filterMap fun p => match p.2 with | .const v => some (p.1, v) | _ => none
@@ -417,6 +397,16 @@ def sigOf (w : World) (src : ClassSrc) : Sig :=
                       ++ names.filter (fun n => !req.contains n && !consts.contains n))
     kwargs := (src.addl.orElse fun _ => inheritedOpt w (·.ownAddl) (mroTail w src)).getD true }
 
+def mapperNames : List String := ["_serialization_mapper", "_deserialization_mapper"]
+
+def isAttrEntry : SrcEntry → Bool
+  | .attr _ => true
+  | _ => false
+
+/-- the mapper attributes written in the class body -/
+def ownMappersOf (entries : List (String × SrcEntry)) : List String :=
+  (entries.filter fun p => mapperNames.contains p.1 && isAttrEntry p.2).map (·.1)
+
 def build (w : World) (src : ClassSrc) : ClassDef :=
   let tail := mroTail w src
   let all := allFieldsOf w src
@@ -431,6 +421,7 @@ def build (w : World) (src : ClassSrc) : ClassDef :=
     ownAddl := src.addl
     ownIgnoreNone := src.ignoreNone
     ownImmutable := src.immutable
+    ownMappers := ownMappersOf src.entries
     addl := (src.addl.orElse fun _ => inheritedOpt w (·.ownAddl) tail).getD true
     ignoreNoneAttr := src.ignoreNone.orElse fun _ => inheritedOpt w (·.ownIgnoreNone) tail
     immutable := (src.immutable.orElse fun _ => inheritedOpt w (·.ownImmutable) tail).getD false }
